@@ -167,8 +167,9 @@ Spline<2, double> reparameterize_spline(
     }();
 
     if (ai == inf) { SMOOTH_VERIF_EVENT("reparam.skip"); }
-    // both shortcuts of the segment duration below: the clamp of the square root and the linear formula for |ai| < eps
-    if (ai != inf && ((std::abs(ai) >= eps && vi2 + 2 * ds * ai < eps) || (std::abs(ai) < eps && ai != 0))) {
+    // both shortcuts of the segment duration below: the clamp of the square root, and the linear formula for |ai| < eps
+    // where the neglected term ai dt^2 / 2 exceeds 1e-9 of the parameter range
+    if (ai != inf && ((std::abs(ai) >= eps && vi2 + 2 * ds * ai < eps) || (std::abs(ai) < eps && std::abs(ai) * (ds / vi) * (ds / vi) / 2 > 1e-9 * (sf - s0)))) {
       SMOOTH_VERIF_EVENT("reparam.clamp");
     }
 
